@@ -148,43 +148,47 @@ mod verif_filters {
         if total_order {
             assert!(dropped_le_kept(&vals, &out, true), "kept scores are the k largest in the total order (NaN, signed zeros)");
         }
+        kani::cover!(has_nan(&vals));
+        kani::cover!(!has_nan(&vals));
     }
 
+    /// One harness per candidate count n; k is chosen symbolically among the listed concrete
+    /// values (the sort inside TopK needs a concrete length, so k cannot be a free variable).
     macro_rules! topk_harness {
-        ($name:ident, $n:expr, $k:expr) => {
+        ($name:ident, $n:expr, [$($k:expr),+]) => {
             #[kani::proof]
             #[kani::stub(Avx2Isa::new, no_avx2)]
             #[kani::stub(Avx512Isa::new, no_avx512)]
             #[kani::unwind(9)]
             pub fn $name() {
-                topk_contract::<$n>($k, false)
+                let ks = [$($k as usize),+];
+                let which: usize = kani::any();
+                kani::assume(which < ks.len());
+                let mut done = false;
+                let mut idx = 0usize;
+                $(
+                    if !done && which == idx {
+                        topk_contract::<$n>($k, false);
+                        done = true;
+                    }
+                    idx += 1;
+                )+
+                let _ = idx;
+                kani::cover!(done && which == 0);
+                kani::cover!(done && which == ks.len() - 1);
             }
         };
     }
 
-    topk_harness!(topk_n1_k0, 1, 0);
-    topk_harness!(topk_n1_k1, 1, 1);
-    topk_harness!(topk_n2_k0, 2, 0);
-    topk_harness!(topk_n2_k1, 2, 1);
-    topk_harness!(topk_n2_k2, 2, 2);
-    topk_harness!(topk_n3_k0, 3, 0);
-    topk_harness!(topk_n3_k1, 3, 1);
-    topk_harness!(topk_n3_k2, 3, 2);
-    topk_harness!(topk_n3_k3, 3, 3);
-    topk_harness!(topk_n4_k0, 4, 0);
-    topk_harness!(topk_n4_k1, 4, 1);
-    topk_harness!(topk_n4_k2, 4, 2);
-    topk_harness!(topk_n4_k3, 4, 3);
-    topk_harness!(topk_n4_k4, 4, 4);
-    topk_harness!(topk_n5_k0, 5, 0);
-    topk_harness!(topk_n5_k1, 5, 1);
-    topk_harness!(topk_n5_k2, 5, 2);
-    topk_harness!(topk_n5_k3, 5, 3);
-    topk_harness!(topk_n5_k4, 5, 4);
-    topk_harness!(topk_n5_k5, 5, 5);
+    topk_harness!(topk_n1, 1, [0, 1]);
+    topk_harness!(topk_n2, 2, [0, 1, 2]);
+    topk_harness!(topk_n3, 3, [0, 1, 2, 3]);
+    topk_harness!(topk_n4, 4, [0, 1, 2, 3, 4]);
+    topk_harness!(topk_n5_small_k, 5, [1, 2]);
+    topk_harness!(topk_n5_large_k, 5, [0, 3, 4, 5]);
     // one full 4-lane SIMD chunk plus a tail element after the first k entries
-    topk_harness!(topk_n6_k1, 6, 1);
-    topk_harness!(topk_n7_k2, 7, 2);
+    topk_harness!(topk_n6, 6, [1]);
+    topk_harness!(topk_n7, 7, [2]);
 
     /// K greater than the number of candidates (design finding D10): the property demands all
     /// n candidates, sorted, and no panic. The (n, k) pair is chosen symbolically among
